@@ -478,14 +478,19 @@ func (p *c29Parser) ty(top bool) reflect.Type {
 
 // ---- ABI for a type
 
-func c29ABI(t reflect.Type, top string, id uint8, pool map[string]*c29Entry, names []string) (a abi.ABI, panicked bool, err error) {
+func c29ABI(t reflect.Type, top string, id uint8, pool map[string]*c29Entry, names []string, asOutput ...bool) (a abi.ABI, panicked bool, err error) {
+	out := len(asOutput) > 0 && asOutput[0]
 	defer func() {
 		if r := recover(); r != nil {
 			panicked = true
 		}
 	}()
 	if t.Name() != "" {
-		a, err = abi.NewABI([]codec.Typed{pool[t.Name()].inst}, nil)
+		if out {
+			a, err = abi.NewABI(nil, []codec.Typed{pool[t.Name()].inst})
+		} else {
+			a, err = abi.NewABI([]codec.Typed{pool[t.Name()].inst}, nil)
+		}
 		return a, false, err
 	}
 	fields, _, err := abi.VerifDescribeStruct(t)
@@ -500,7 +505,11 @@ func c29ABI(t reflect.Type, top string, id uint8, pool map[string]*c29Entry, nam
 	if err != nil {
 		return abi.ABI{}, false, err
 	}
-	a.Actions = []abi.TypedStruct{{ID: id, Name: top}}
+	if out {
+		a.Outputs = []abi.TypedStruct{{ID: id, Name: top}}
+	} else {
+		a.Actions = []abi.TypedStruct{{ID: id, Name: top}}
+	}
 	a.Types = append([]abi.Type{{Name: top, Fields: fields}}, pa.Types...)
 	return a, false, nil
 }
@@ -853,8 +862,17 @@ func TestVerifC29Values(t *testing.T) {
 				continue
 			}
 			lines = append(lines, "val "+verifh.Hex([]byte("{}"))+" "+c29Line(e.t, ""))
+			lines = append(lines, "valout "+verifh.Hex([]byte("{}"))+" "+c29Line(e.t, ""))
 			for i := 0; i < r.N(60, 2000); i++ {
 				gen(e.t, "")
+			}
+			// the same type registered as an OUTPUT of the VM (NewABI(nil, outputs))
+			n0 := len(lines)
+			for i := 0; i < r.N(6, 200); i++ {
+				gen(e.t, "")
+			}
+			for i := n0; i < len(lines); i++ {
+				lines[i] = "valout" + lines[i][3:]
 			}
 		}
 		for i := 0; i < r.N(400, 20000); i++ {
@@ -863,7 +881,7 @@ func TestVerifC29Values(t *testing.T) {
 	}
 	for _, l := range lines {
 		f := verifh.Fields(l)
-		if len(f) < 3 || f[0] != "val" {
+		if len(f) < 3 || (f[0] != "val" && f[0] != "valout") {
 			r.Emit(l, "bad-op")
 			continue
 		}
@@ -881,8 +899,9 @@ func TestVerifC29Values(t *testing.T) {
 		name := ty.Name() + top
 		id := uint8(7)
 		if top == "" {
-			id = pool[name].id
+			id = pool[name].inst.GetTypeID() // what NewABI records
 		}
+		asOut := f[0] == "valout"
 		v0 := reflect.New(ty)
 		if err := json.Unmarshal(js, v0.Interface()); err != nil {
 			r.Emit(l, "bad-op")
@@ -903,14 +922,11 @@ func TestVerifC29Values(t *testing.T) {
 		}
 		vjs, _ := json.Marshal(v.Interface())
 		sup, why := c29Supported(ty)
-		a, panicked, aerr := c29ABI(ty, top, id, pool, names)
+		a, panicked, aerr := c29ABI(ty, top, id, pool, names, asOut)
 		if panicked || aerr != nil {
 			r.Emit(l, "abi-err")
 			r.Violation("abi-describe-fails", "%s", name)
 			continue
-		}
-		if top == "" {
-			a.Actions = []abi.TypedStruct{{ID: id, Name: name}}
 		}
 		out := "eq"
 		var vs []c29Viol
@@ -922,8 +938,21 @@ func TestVerifC29Values(t *testing.T) {
 				}
 			}()
 			db, derr := Marshal(a, name, string(vjs))
-			dj, uerr := Unmarshal(a, native[1:], name)
+			var dj string
+			var uerr error
+			if asOut {
+				dj, uerr = UnmarshalOutput(a, native)
+			} else {
+				dj, uerr = UnmarshalAction(a, native)
+			}
 			switch {
+			case asOut && sup && uerr == nil && derr != nil && strings.Contains(derr.Error(), "not found in ABI") && strings.HasPrefix(derr.Error(), "action "):
+				// Marshal looks the type id up in abi.Actions only
+				out = "marshal-output-not-found"
+				vs = append(vs, c29Viol{"dynamic-marshal-output-type-not-found", fmt.Sprintf("registered output type %s: %v", name, derr)})
+				if !c29JSONEq([]byte(dj), vjs) {
+					vs = append(vs, c29Viol{"dynamic-unmarshal-json-mismatch", fmt.Sprintf("%s native=%s dynamic=%s", name, vjs, dj)})
+				}
 			case derr != nil || uerr != nil:
 				out = "err"
 				if !sup {
